@@ -64,6 +64,15 @@ def evalFrom (top : Node) : List Ref → List Step → List Ref
 /-- value of the absolute path `/s1/…/sn` in the tree rooted at `top` -/
 def evalSteps (top : Node) (steps : List Step) : List Ref := evalFrom top [⟨[], .self⟩] steps
 
+/-! ### evaluation of an absolute path in a fragment context (model of the implementation)
+
+`_xpath1_operators.py :: select__child_path`, branch `len(self) == 1` of a leading `/`: when the
+context has no document node (`XPathContext(fragment=True)`) the context item becomes
+`context.root` — the parent-less root element — and the steps are evaluated from it.  So the
+absolute `node.path` (which starts with the root element's own step) is evaluated *inside* the
+root element.  XPath 3.1 §3.3 gives `/` no value there (XPDY0050). -/
+def evalAbsInFragment (e : Node) (absSteps : List Step) : List Ref := evalSteps e absSteps
+
 /-! ### the path prescribed by F&O 3.1 §14.6 -/
 
 /-- shape of the step for a child (position filled in by `specStep`) -/
